@@ -174,7 +174,7 @@ theorem emu_safe {e : Emu} {rows cols : Nat} (h : EmuInv e rows cols) (d : Dim r
   | resize w hh => exact absurd rfl (hop w hh)
 
 /-- Resizing to any admissible size from any good state. -/
-theorem resize_safe' {e : Emu} {rows cols : Nat} (h : EmuInv e rows cols) (d : Dim rows cols) (w hh : Int)
+theorem resize_step_safe {e : Emu} {rows cols : Nat} (h : EmuInv e rows cols) (d : Dim rows cols) (w hh : Int)
     (hw1 : 1 ≤ w) (hw2 : w ≤ 65535) (hh1 : 1 ≤ hh) (hh2 : hh ≤ 65535) :
     ∃ r, emuStep e (.resize w hh) = .ok r ∧ EmuInv r.1 hh.toNat w.toNat ∧ Dim hh.toNat w.toNat := by
   obtain ⟨e', he, hi⟩ := resize_safe h d w hh hw1 hw2 hh1 hh2
@@ -188,7 +188,7 @@ theorem emu_safe_step {e : Emu} (hg : Good e) (op : EOp) (hop : OpOk op) :
   cases op with
   | resize w hh =>
     obtain ⟨hw1, hw2, hh1, hh2⟩ := hop
-    obtain ⟨r, hr, hi, hd⟩ := resize_safe' h d w hh hw1 hw2 hh1 hh2
+    obtain ⟨r, hr, hi, hd⟩ := resize_step_safe h d w hh hw1 hw2 hh1 hh2
     exact ⟨r, hr, _, _, hi, hd⟩
   | print g w => obtain ⟨r, hr, hi⟩ := emu_safe h d (.print g w) (by intro _ _ hc; cases hc); exact ⟨r, hr, rows, cols, hi, d⟩
   | c0 x => obtain ⟨r, hr, hi⟩ := emu_safe h d (.c0 x) (by intro _ _ hc; cases hc); exact ⟨r, hr, rows, cols, hi, d⟩
